@@ -76,6 +76,9 @@ type Faults struct {
 	// CloseReturnsErr: Close does its work (the connection is closed, a blocked read is released as
 	// CloseMode says) and then reports an error, as e.g. a child process that had already gone does
 	CloseReturnsErr bool `json:"close_returns_err,omitempty"`
+	// WriteErrOnce: only the write with index WriteErrAt fails (a transient fault); the peer never
+	// sees its bytes, later writes work again
+	WriteErrOnce bool `json:"write_err_once,omitempty"`
 }
 
 // NoFaults is the fault-free plan.
@@ -583,7 +586,7 @@ func (t *T) Write(b []byte) error {
 
 		return ErrSimClosed
 	}
-	if t.F.WriteErrAt >= 0 && len(t.Writes) >= t.F.WriteErrAt {
+	if t.F.WriteErrAt >= 0 && (len(t.Writes) == t.F.WriteErrAt || len(t.Writes) > t.F.WriteErrAt && !t.F.WriteErrOnce) {
 		rec.Failed = true
 		t.Writes = append(t.Writes, rec)
 		t.FaultFired["writeerr"]++
